@@ -66,6 +66,22 @@ def child_env():
     return env
 
 
+class _TimedOut:
+    """Result of a subprocess that hit the wall-clock watchdog: never a verdict, the caller counts it and moves on."""
+    returncode = None
+    stdout = b''
+    stderr = b'watchdog: subprocess did not finish in time'
+
+
+def run_sub(cmd, **kw):
+    kw.setdefault('timeout', 900)
+    try:
+        return subprocess.run(cmd, **kw)
+    except subprocess.TimeoutExpired:
+        REC.count('subprocess_watchdog_fired')
+        return _TimedOut()
+
+
 # ------------------------------------------------------------ (de)serialise
 def enc(o):
     if isinstance(o, bytes):
@@ -368,7 +384,7 @@ def check_main(pid, cli_tier=None):
     for pr in selftest.run():
         problems.append('reference model self-test (values printed in ISO/IEC 18004): %s' % pr)
     cases = mod.gen_cases(tier, seed)
-    timeout_s = getattr(mod, 'TIMEOUT', {'quick': 900, 'thorough': 7200})[tier]
+    timeout_s = getattr(mod, 'TIMEOUT', {'quick': 3600, 'thorough': 21600})[tier]
     dumps, probs = run_sharded(pid, cases, timeout_s, extra_args=[tier, str(seed)])
     problems.extend(probs)
     if hasattr(mod, 'main_phase'):
